@@ -6,7 +6,10 @@ use log::{debug, info};
 use rayon::prelude::*;
 use saito_core::core::consensus::peers::peer::PeerStatus;
 use tokio::sync::mpsc::Sender;
+#[cfg(not(saito_verif))]
 use tokio::sync::RwLock;
+#[cfg(saito_verif)]
+use saito_core::core::util::verif::RwLock;
 
 use saito_core::core::consensus::blockchain::Blockchain;
 use saito_core::core::consensus::peers::peer_collection::PeerCollection;
